@@ -25,6 +25,45 @@ impl Map<String, Value> {
   { self.m.contains_key(k) }
   #[verifier::external]
   pub fn keys(&self) -> std::collections::btree_map::Keys<'_, String, Value> { self.m.keys() }
+  #[verifier::external]
+  pub fn values(&self) -> std::collections::btree_map::Values<'_, String, Value> { self.m.values() }
+  #[verifier::external]
+  pub fn iter(&self) -> std::collections::btree_map::Iter<'_, String, Value> { self.m.iter() }
+  #[verifier::external_body]
+  pub fn len(&self) -> (r: usize) { self.m.len() }
+  #[verifier::external_body]
+  pub fn is_empty(&self) -> (r: bool) { self.m.is_empty() }
+}
+// further accessors of serde_json::Value / Number, declared so that code which uses them stays inside the verified text (a change that starts to use one
+// of them is then judged by its obligations - e.g. an `unwrap` on an accessor that can answer None - instead of making the unit unbuildable).
+// ASSUMED, as documented by serde_json: an `as_*` accessor answers Some exactly for its own variant; nothing is assumed about numbers.
+impl Value {
+  #[verifier::external_body]
+  pub fn as_str(&self) -> (r: Option<&str>) ensures r is Some == (self is String) { match self { Value::String(s) => Some(s.as_str()), _ => None } }
+  #[verifier::external_body]
+  pub fn as_array(&self) -> (r: Option<&Vec<Value>>) ensures r is Some == (self is Array) { match self { Value::Array(a) => Some(a), _ => None } }
+  #[verifier::external_body]
+  pub fn as_object(&self) -> (r: Option<&Map<String, Value>>) ensures r is Some == (self is Object) { match self { Value::Object(o) => Some(o), _ => None } }
+  #[verifier::external_body]
+  pub fn as_bool(&self) -> (r: Option<bool>) ensures r is Some == (self is Bool) { match self { Value::Bool(b) => Some(*b), _ => None } }
+  #[verifier::external_body]
+  pub fn as_i64(&self) -> (r: Option<i64>) ensures r is Some ==> (self is Number) { match self { Value::Number(n) => n.as_i64(), _ => None } }
+  #[verifier::external_body]
+  pub fn as_u64(&self) -> (r: Option<u64>) ensures r is Some ==> (self is Number) { match self { Value::Number(n) => n.as_u64(), _ => None } }
+  #[verifier::external_body]
+  pub fn as_f64(&self) -> (r: Option<f64>) ensures r is Some ==> (self is Number) { match self { Value::Number(n) => n.as_f64(), _ => None } }
+  #[verifier::external_body]
+  pub fn is_null(&self) -> (r: bool) ensures r == (self is Null) { matches!(self, Value::Null) }
+  #[verifier::external_body]
+  pub fn is_string(&self) -> (r: bool) ensures r == (self is String) { matches!(self, Value::String(_)) }
+  #[verifier::external_body]
+  pub fn is_array(&self) -> (r: bool) ensures r == (self is Array) { matches!(self, Value::Array(_)) }
+  #[verifier::external_body]
+  pub fn is_object(&self) -> (r: bool) ensures r == (self is Object) { matches!(self, Value::Object(_)) }
+  #[verifier::external_body]
+  pub fn is_number(&self) -> (r: bool) ensures r == (self is Number) { matches!(self, Value::Number(_)) }
+  #[verifier::external_body]
+  pub fn get(&self, k: &str) -> (r: Option<&Value>) ensures r is Some ==> (self is Object) { match self { Value::Object(o) => o.get(k), _ => None } }
 }
 impl Clone for Map<String, Value> {
   #[verifier::external_body]
@@ -33,6 +72,16 @@ impl Clone for Map<String, Value> {
 impl Number {
   #[verifier::external_body]
   pub fn as_i64(&self) -> (r: Option<i64>) { Some(self.n) }
+  #[verifier::external_body]
+  pub fn as_u64(&self) -> (r: Option<u64>) { if self.n >= 0 { Some(self.n as u64) } else { None } }
+  #[verifier::external_body]
+  pub fn as_f64(&self) -> (r: Option<f64>) { None }
+  #[verifier::external_body]
+  pub fn is_i64(&self) -> (r: bool) { true }
+  #[verifier::external_body]
+  pub fn is_u64(&self) -> (r: bool) { self.n >= 0 }
+  #[verifier::external_body]
+  pub fn is_f64(&self) -> (r: bool) { false }
 }
 } // verus!
 impl Clone for Number { fn clone(&self) -> Self { Number { n: self.n } } }
